@@ -36,6 +36,10 @@ def setup():
     import gemdat.rdf  # noqa: F401
     import gemdat.transitions  # noqa: F401
     import gemdat.volume  # noqa: F401
+    import gemdat.shape  # noqa: F401
+    import gemdat.orientations  # noqa: F401
+    import gemdat.plots.plotly  # noqa: F401
+    import plotly.graph_objects  # noqa: F401
 
     sys.unraisablehook = lambda *a, **k: None
     # rich progress bars off (rdf.radial_distribution uses track()); never touches data
@@ -72,9 +76,18 @@ def gen_world(rng: SimRandom) -> dict:
         'temperature': rng.pick([300, 650.5, 1000]),
         'n_sites': n_sites,
         'site_seed': rng.getrandbits(32),
-        'roots': [rng.pick(['wrapped', 'unwrapped', 'shifted', 'disp']) for _ in range(rng.randint(1, 2))],
         'step_bound': rng.pick([0.22, 0.22, 0.22, 0.45]),
     }
+
+
+ROOT_MODES = ['wrapped', 'unwrapped', 'shifted', 'disp']
+
+
+def systems_of(world: dict):
+    """(systems, roots) of a scenario world; accepts the older single-system format."""
+    if 'systems' in world:
+        return world['systems'], [tuple(r) for r in world['roots']]
+    return [world], [(0, m) for m in world['roots']]
 
 
 def world_arrays(w: dict):
@@ -215,11 +228,14 @@ def circ_max(a, b) -> float:
 # generation
 
 PERTURB = ('to_positions', 'to_displacements', 'read_positions', 'read_displacements')
+EXTRA_QUERIES = ('shape', 'orientations', 'plot')  # judged by outcome kind + data integrity afterwards (+ values for shape/orientations)
+PLOTS = ('plot_displacement_per_atom', 'plot_displacement_per_element', 'plot_msd_per_element', 'plot_displacement_histogram',
+         'plot_frequency_vs_occurence', 'plot_vibrational_amplitudes')
 QUERIES = (
     'cumulative_displacements', 'distances_from_base_position', 'mean_squared_displacement', 'drift', 'drift_fixed', 'get_lattice',
     'total_time', 'speed', 'tracer_diffusivity', 'vibration_amplitude', 'attempt_frequency', 'particle_density', 'haven_ratio',
     'to_volume', 'transitions', 'rdf', 'get_structure', 'len_species', 'center_of_mass_q', 'iterate', 'drift_floating',
-)
+) + EXTRA_QUERIES
 DISPLACEMENT_BASED = {
     'cumulative_displacements', 'distances_from_base_position', 'mean_squared_displacement', 'drift', 'drift_fixed', 'speed', 'tracer_diffusivity',
     'vibration_amplitude', 'attempt_frequency', 'haven_ratio', 'center_of_mass_q', 'drift_floating',
@@ -229,15 +245,21 @@ DERIVE = ('filter', 'slice', 'listidx', 'intidx', 'split', 'drift_correct', 'cen
 
 def generate(run_seed: int, tier: str = 'quick', stream: str = 'seq') -> dict:
     rng = SimRandom(run_seed)
-    w = gen_world(rng)
+    n_sys = rng.weighted({1: 4, 2: 4, 3: 2})
+    systems = [gen_world(rng) for _ in range(n_sys)]
+    roots = []
+    for si in range(n_sys):
+        for _ in range(rng.randint(1, 2)):
+            roots.append([si, rng.pick(ROOT_MODES)])
     n_clients = rng.randint(1, 3)
     wt = {
         'PERTURB': rng.uniform(1, 5), 'QUERY': rng.uniform(2, 6), 'DERIVE': rng.uniform(1, 4), 'EXTEND': rng.uniform(0, 1.5),
+        'SPAWN': rng.uniform(0, 0.8) if n_sys > 1 else rng.uniform(0, 0.2), 'DROP': rng.uniform(0, 1.5),
     }
     disabled_q = {q for q in QUERIES if rng.chance(0.15)}
     n_ops = rng.randint(20, 120 if tier == 'quick' else 250)
-    nf = w['nf']
-    names = [f'r{i}' for i in range(len(w['roots']))]
+    nf = max(w['nf'] for w in systems)
+    names = [f'r{i}' for i in range(len(roots))]
     ops = []
     counter = 0
 
@@ -272,6 +294,14 @@ def generate(run_seed: int, tier: str = 'quick', stream: str = 'seq') -> dict:
                 op['dim'] = rng.pick([1, 2, 3])
             elif q in ('drift_fixed', 'drift_floating'):
                 op['s'] = rng.randrange(3)
+            elif q == 'shape':
+                op['supercell'] = rng.pick([None, [2, 1, 1], [1, 2, 2], [1, 1, 1]])
+                op['radius'] = rng.pick([0.6, 1.0])
+            elif q == 'orientations':
+                op['s1'] = rng.randrange(3)
+                op['s2'] = rng.randrange(3)
+            elif q == 'plot':
+                op['which'] = rng.randrange(len(PLOTS))
             ops.append(op)
         elif kind == 'DERIVE':
             d = rng.pick(DERIVE)
@@ -304,10 +334,17 @@ def generate(run_seed: int, tier: str = 'quick', stream: str = 'seq') -> dict:
             ops.append(op)
         elif kind == 'EXTEND':
             ops.append({'op': 'EXTEND', 'obj': ref(), 'other': ref(), 'client': client})
+        elif kind == 'SPAWN':
+            counter += 1
+            op = {'op': 'SPAWN', 'sys': rng.randrange(n_sys), 'mode': rng.pick(ROOT_MODES), 'name': f's{counter}', 'client': client}
+            names.append(op['name'])
+            ops.append(op)
+        elif kind == 'DROP':
+            ops.append({'op': 'DROP', 'obj': ref(), 'held': rng.chance(0.3), 'gc': rng.chance(0.3), 'client': client})
     return {
         'format': 1, 'property': PROP, 'run_seed': run_seed, 'stream': stream,
         'config': {'n_clients': n_clients, 'fault_free': True, 'disabled_queries': sorted(disabled_q)},
-        'world': w, 'ops': ops,
+        'world': {'systems': systems, 'roots': roots}, 'ops': ops,
     }
 
 
@@ -316,11 +353,12 @@ def generate(run_seed: int, tier: str = 'quick', stream: str = 'seq') -> dict:
 
 
 class Entry:
-    __slots__ = ('name', 'T', 'M', 'depth', 'origin', 'kind', 'amb', 'dc')
+    __slots__ = ('name', 'T', 'M', 'depth', 'origin', 'kind', 'amb', 'dc', 'sys')
 
-    def __init__(self, name, T, M, depth, origin, kind='traj', dc=0):
+    def __init__(self, name, T, M, depth, origin, kind='traj', dc=0, sys=0):
         self.name, self.T, self.M, self.depth, self.origin, self.kind = name, T, M, depth, origin, kind
         self.dc = dc
+        self.sys = sys
         # displacement semantics undefined: a stored or implied step of half a cell or more
         self.amb = ambiguous_steps(M) or bool(T.coords_are_displacement and np.any(np.abs(np.asarray(T.coords)) > 0.5 - 1e-6))
 
@@ -328,15 +366,38 @@ class Entry:
 class Run:
     def __init__(self, scenario, keep_events=False):
         self.sc = scenario
-        self.w = scenario['world']
+        self.systems, self.roots = systems_of(scenario['world'])
+        self.cur = 0  # system of the object the current op works on
+        self._sites: dict = {}
+        self._shape: dict = {}
         self.trace = Trace(keep=keep_events)
         self.stats = Stats()
         self.step = -1
         self.pool: dict = {}
         self.held: list = []  # Transitions objects kept by clients
         self.oracle_checks = 0
-        self.sites = None
         self.last3: list = []
+
+    @property
+    def w(self) -> dict:
+        return self.systems[self.cur]
+
+    @property
+    def sites(self):
+        st = self._sites.get(self.cur)
+        if st is None:
+            st = self._sites[self.cur] = build_sites(self.w)
+        return st
+
+    def shape_analyzer(self):
+        if self.cur not in self._shape:
+            from gemdat.shape import ShapeAnalyzer
+
+            try:
+                self._shape[self.cur] = ShapeAnalyzer.from_structure(self.sites)
+            except Exception:  # noqa: BLE001
+                self._shape[self.cur] = None
+        return self._shape[self.cur]
 
     def violation(self, cls, detail, signature=None):
         raise Violation(f'{PROP}/{cls}', detail, signature or {}, self.step)
@@ -395,6 +456,7 @@ class Run:
         e = self.pool.get(op['obj'])
         if e is None or e.kind != 'traj':
             return self.trace.log(ev='PERTURB', step=self.step, skipped=True)
+        self.cur = e.sys
         T = e.T
         before = bool(T.coords_are_displacement)
         how = op['how']
@@ -452,7 +514,7 @@ class Run:
                 self.violation('base_image_changed', f'{name} (by {origin}): base positions differ from those of the same call on a pristine copy', {'how': origin})
             M.pop('B_expected')
         M['B'] = B
-        e = Entry(name, T, M, parent.depth + 1, origin, dc=parent.dc + (1 if origin == 'drift_correct' else 0))
+        e = Entry(name, T, M, parent.depth + 1, origin, dc=parent.dc + (1 if origin == 'drift_correct' else 0), sys=parent.sys)
         self.pool[name] = e
         self.check_entry(e, f'at creation by {origin}')
         return e
@@ -462,6 +524,7 @@ class Run:
         how = op['how']
         if e is None or e.kind != 'traj':
             return self.trace.log(ev='DERIVE', step=self.step, how=how, skipped='no object')
+        self.cur = e.sys
         T = e.T
         before = bool(T.coords_are_displacement)
         has_real_species = 'X' not in e.M['symbols']
@@ -577,8 +640,9 @@ class Run:
     def op_extend(self, op):
         a = self.pool.get(op['obj'])
         b = self.pool.get(op['other'])
-        if a is None or b is None or a is b or a.kind != 'traj' or b.kind != 'traj':
+        if a is None or b is None or a is b or a.kind != 'traj' or b.kind != 'traj' or a.sys != b.sys:
             return self.trace.log(ev='EXTEND', step=self.step, skipped=True)
+        self.cur = a.sys
         if a.M['species'] != b.M['species'] or a.M['time_step'] != b.M['time_step'] or len(a.M['P']) + len(b.M['P']) > 200:
             return self.trace.log(ev='EXTEND', step=self.step, skipped='incompatible')
         if a.T.site_properties is not None or a.T.frame_properties is not None:
@@ -595,6 +659,31 @@ class Run:
         self.trace.log(ev='EXTEND', step=self.step, a=a.name, b=b.name, client=op.get('client'))
         self.check_entry(a, 'after extend')
         self.check_entry(b, 'appended trajectory after extend')
+
+    def op_spawn(self, op):
+        si = op['sys'] % len(self.systems)
+        self.cur = si
+        T, M = build_root(self.systems[si], op['mode'], 100 + self.step)
+        e = Entry(op['name'], T, M, 0, 'root_' + op['mode'], sys=si)
+        self.pool[e.name] = e
+        self.stats.probe('spawned')
+        self.trace.log(ev='SPAWN', step=self.step, name=e.name, sys=si, mode=op['mode'], client=op.get('client'))
+        self.check_entry(e, 'at creation')
+
+    def op_drop(self, op):
+        import gc
+
+        if op.get('held') and self.held:
+            self.held.pop(0)
+        e = self.pool.get(op['obj'])
+        n_traj = sum(1 for x in self.pool.values() if x.kind == 'traj')
+        if e is not None and n_traj > 1:
+            del self.pool[op['obj']]
+            self.stats.probe('dropped')
+        del e
+        if op.get('gc'):
+            gc.collect()
+        self.trace.log(ev='DROP', step=self.step, obj=op['obj'], client=op.get('client'))
 
     # -- read-only queries vs. pristine twin ---------------------------------------------------
     def run_query(self, T, op, M):
@@ -655,6 +744,20 @@ class Run:
             return raw_positions(T.center_of_mass())
         if q == 'iterate':
             return np.array([s.frac_coords for s in T])
+        if q == 'shape':
+            sa = self.shape_analyzer()
+            if sa is None:
+                raise ValueError('no shape analyzer for this system')
+            sc = op.get('supercell')
+            shapes = sa.analyze_trajectory(T, supercell=tuple(sc) if sc else None, radius=op.get('radius', 1.0))
+            return np.array([[len(sh.coords), float(np.sum(sh.coords)), float(np.sum(np.abs(sh.coords)))] for sh in shapes], dtype=float).reshape(-1, 3)
+        if q == 'orientations':
+            from gemdat.orientations import Orientations
+
+            return np.asarray(Orientations(T, self.sym(op.get('s1', 0)), self.sym(op.get('s2', 1))).vectors)
+        if q == 'plot':
+            fig = getattr(T, PLOTS[op.get('which', 0) % len(PLOTS)])()
+            return np.array([len(fig.data)])
         raise HarnessError(q)
 
     def tolerance(self, q, M):
@@ -662,16 +765,17 @@ class Run:
         return {
             'cumulative_displacements': (0, 1e-9), 'distances_from_base_position': (0, 1e-9 * amax), 'mean_squared_displacement': (1e-9, 1e-8 * amax * amax),
             'drift': (0, 1e-9), 'drift_fixed': (0, 1e-9), 'drift_floating': (0, 1e-9), 'get_lattice': (0, 1e-12), 'total_time': (1e-12, 0), 'speed': (0, 1e-9 * amax),
-            'particle_density': (1e-12, 0), 'get_structure': (0, 1e-9), 'len_species': (0, 0), 'center_of_mass_q': (0, 1e-9), 'iterate': (0, 1e-9),
+            'particle_density': (1e-12, 0), 'get_structure': (0, 1e-9), 'len_species': (0, 0), 'center_of_mass_q': (0, 1e-9), 'iterate': (0, 1e-9), 'orientations': (1e-7, 1e-8),
         }.get(q, (1e-6, 0.0))
 
     def op_query(self, op):
         e = self.pool.get(op['obj'])
         if e is None or e.kind != 'traj':
             return self.trace.log(ev='QUERY', step=self.step, q=op['q'], skipped='no object')
+        self.cur = e.sys
         q = op['q']
         M = e.M
-        if 'X' in M['symbols'] and q in ('drift_fixed', 'drift_floating', 'transitions', 'rdf', 'haven_ratio', 'center_of_mass_q'):
+        if 'X' in M['symbols'] and q in ('drift_fixed', 'drift_floating', 'transitions', 'rdf', 'haven_ratio', 'center_of_mass_q', 'shape', 'orientations', 'plot'):
             return self.trace.log(ev='QUERY', step=self.step, q=q, skipped='dummy species')
         if q == 'haven_ratio' and not e.amb:
             try:
@@ -782,6 +886,17 @@ class Run:
         ref = np.asarray(ref, dtype=float)
         if got.shape != ref.shape:
             return f'shape {got.shape} vs {ref.shape}'
+        if q == 'plot':
+            return None if np.array_equal(got, ref) else f'number of traces {got} vs {ref}'
+        if q == 'shape':
+            # cluster membership is discontinuous at the radius and at the supercell fold: a representation round trip may move
+            # a point across by an ulp, so only a gross disagreement in the number of collected points is judged
+            dn = np.abs(got[:, 0] - ref[:, 0])
+            if np.all(dn <= 2 + 0.02 * ref[:, 0]):
+                if dn.any():
+                    self.stats.relax('shape_cluster_boundary')
+                return None
+            return f'numbers of points per site {got[:, 0]} vs {ref[:, 0]}'
         if q in ('vibration_amplitude', 'attempt_frequency', 'haven_ratio'):
             sp = np.asarray(twin.metrics().speed())
             amax = float(np.abs(M['lattice']).sum())
@@ -838,15 +953,15 @@ class Run:
 
     # -- main -----------------------------------------------------------------------------------
     def run(self):
-        w = self.w
-        self.sites = build_sites(w)
-        for i, mode in enumerate(w['roots']):
-            T, M = build_root(w, mode, i)
-            e = Entry(f'r{i}', T, M, 0, 'root_' + mode)
+        for i, (si, mode) in enumerate(self.roots):
+            self.cur = si
+            T, M = build_root(self.systems[si], mode, i)
+            e = Entry(f'r{i}', T, M, 0, 'root_' + mode, sys=si)
             self.pool[e.name] = e
-        self.trace.log(ev='world', world=w)
+        self.trace.log(ev='world', systems=self.systems, roots=[list(r) for r in self.roots])
         self.check_all('initial')
-        table = {'PERTURB': self.op_perturb, 'DERIVE': self.op_derive, 'EXTEND': self.op_extend, 'QUERY': self.op_query}
+        table = {'PERTURB': self.op_perturb, 'DERIVE': self.op_derive, 'EXTEND': self.op_extend, 'QUERY': self.op_query,
+                 'SPAWN': self.op_spawn, 'DROP': self.op_drop}
         for i, op in enumerate(self.sc['ops']):
             self.step = i
             table[op['op']](op)
@@ -889,7 +1004,13 @@ def execute(scenario: dict, workdir: str, keep_events: bool = False) -> dict:
 
 
 def simplify(sc: dict):
-    w = sc['world']
+    if 'systems' not in sc['world']:  # older single-system replay: convert once
+        c = copy.deepcopy(sc)
+        systems, roots = systems_of(sc['world'])
+        c['world'] = {'systems': copy.deepcopy(systems), 'roots': [list(r) for r in roots]}
+        yield c
+        return
+    world = sc['world']
     for i, op in enumerate(sc['ops']):
         if op['op'] == 'DERIVE' and op['how'] == 'slice' and op['slice'] != [None, None, None]:
             for alt in ([op['slice'][0], None, None], [None, op['slice'][1], None], [None, None, op['slice'][2]]):
@@ -902,39 +1023,58 @@ def simplify(sc: dict):
             c['ops'][i]['which'] = op['which'][:1]
             c['ops'][i]['sel'] = 'str'
             yield c
-    if len(w['roots']) > 1:
-        for keep in range(len(w['roots'])):
+    roots = world['roots']
+    # fewer roots (names r<i> are positional: renumber references)
+    if len(roots) > 1:
+        for drop in range(len(roots)):
             c = copy.deepcopy(sc)
-            c['world']['roots'] = [w['roots'][keep]]
-            ren = {f'r{keep}': 'r0'}
+            c['world']['roots'] = [r for k, r in enumerate(roots) if k != drop]
+            ren = {f'r{k}': (f'r{k - 1}' if k > drop else f'r{k}') for k in range(len(roots))}
+            ren[f'r{drop}'] = 'r_gone'
             for o in c['ops']:
-                for k in ('obj', 'other'):
-                    if k in o and o[k] in ren:
-                        o[k] = ren[o[k]]
-                    elif k in o and o[k].startswith('r') and o[k] not in ren and o[k][1:].isdigit():
-                        o[k] = 'r99'
+                for key in ('obj', 'other'):
+                    if o.get(key) in ren:
+                        o[key] = ren[o[key]]
             yield c
-    if w['roots'][0] != 'wrapped':
-        c = copy.deepcopy(sc)
-        c['world']['roots'][0] = 'wrapped'
-        yield c
-    if w['lattice']['kind'] != 'cubic' or w['lattice'].get('rot'):
-        c = copy.deepcopy(sc)
-        a = w['lattice']['params'][0]
-        c['world']['lattice'] = {'kind': 'cubic', 'params': [a, a, a, 90.0, 90.0, 90.0], 'rot': None}
-        yield c
-    if w['na'] > 1:
-        c = copy.deepcopy(sc)
-        c['world']['na'] = max(1, w['na'] // 2)
-        c['world']['species'] = w['species'][: c['world']['na']]
-        yield c
-    if w['nf'] > 2:
-        c = copy.deepcopy(sc)
-        c['world']['nf'] = max(2, w['nf'] // 2)
-        yield c
-        c = copy.deepcopy(sc)
-        c['world']['nf'] = w['nf'] - 1
-        yield c
+    # fewer systems
+    if len(world['systems']) > 1:
+        used = {r[0] for r in roots} | {o['sys'] % len(world['systems']) for o in sc['ops'] if o['op'] == 'SPAWN'}
+        for drop in range(len(world['systems'])):
+            if drop in used:
+                continue
+            c = copy.deepcopy(sc)
+            del c['world']['systems'][drop]
+            for r in c['world']['roots']:
+                if r[0] > drop:
+                    r[0] -= 1
+            for o in c['ops']:
+                if o['op'] == 'SPAWN':
+                    k = o['sys'] % len(world['systems'])
+                    o['sys'] = k - 1 if k > drop else k
+            yield c
+    for k, r in enumerate(roots):
+        if r[1] != 'wrapped':
+            c = copy.deepcopy(sc)
+            c['world']['roots'][k][1] = 'wrapped'
+            yield c
+    for si, w in enumerate(world['systems']):
+        if w['lattice']['kind'] != 'cubic' or w['lattice'].get('rot'):
+            c = copy.deepcopy(sc)
+            a = w['lattice']['params'][0]
+            c['world']['systems'][si]['lattice'] = {'kind': 'cubic', 'params': [a, a, a, 90.0, 90.0, 90.0], 'rot': None}
+            yield c
+        if w['na'] > 1:
+            c = copy.deepcopy(sc)
+            c['world']['systems'][si]['na'] = max(1, w['na'] // 2)
+            c['world']['systems'][si]['species'] = w['species'][: c['world']['systems'][si]['na']]
+            yield c
+        if w['nf'] > 2:
+            c = copy.deepcopy(sc)
+            c['world']['systems'][si]['nf'] = max(2, w['nf'] // 2)
+            yield c
+            c = copy.deepcopy(sc)
+            c['world']['systems'][si]['nf'] = w['nf'] - 1
+            yield c
 
 
 LEVEL = 'exploration'
